@@ -179,3 +179,24 @@ def toVec (src : Cols) : Out :=
   { st := src, ret := some src, ev := { clones := src.flat } }
 
 end Soa.Model
+
+namespace Soa.Model
+
+/-- build profile: `debug_assert*` executed or not (arithmetic overflow: see `IdxIR.Prof`) -/
+inductive Prof | debug | release
+  deriving DecidableEq
+
+/-- the generated `len()`: `let len = self.first.len(); debug_assert_eq!(self.f.len(), len) …; len` —
+    the first field's length; a debug build panics (`none`) when another field disagrees -/
+def len (p : Prof) (c : Cols) : Option Nat :=
+  match p with
+  | .release => some c.firstLen
+  | .debug => if c.leaves.all (fun l => l.length == c.firstLen) then some c.firstLen else none
+
+/-- the generated `is_empty()`, likewise -/
+def isEmpty (p : Prof) (c : Cols) : Option Bool :=
+  match p with
+  | .release => some (c.firstLen == 0)
+  | .debug => if c.leaves.all (fun l => (l.length == 0) == (c.firstLen == 0)) then some (c.firstLen == 0) else none
+
+end Soa.Model
